@@ -138,6 +138,10 @@ def eval_expect(exp, out):
     if k == 'line_negative':
         v = out['solution'].get(exp['line'])
         return v is not None and Fraction(v) < 0 and (not exp.get('need_solved') or out['solved'] is True)
+    if k == 'keys':
+        if out['solved'] is not True:
+            return False
+        return sorted(out['solution']) != sorted(exp['keys']) or sorted(out['forms']) != sorted(exp['forms'])
     if k == 'instruction':
         if out['solved'] is not True:
             return False
